@@ -26,6 +26,11 @@ def main(argv):
             return replay(a.replay)
         if not a.prop:
             ap.error("property id required")
+        if a.list:
+            gen_all(a.tier)
+            for o in load_prop(a.prop.upper()).obligations(a.tier):
+                print("%s\t%s\t%s" % (o["name"], o["engine"], "proof" if o.get("complete", True) else "bounded"))
+            return 0
         return check(a.prop.upper(), a.tier, a.only)
     except Broken as e:
         log("CHECK-BROKEN (undecided, not a violation): %s" % e)
